@@ -155,39 +155,62 @@ package config
 //@   ensures R1 [C14]: result == addrCompare(a, b)
 //@   opt pure applyCmpAddr
 
+// The plugin part of an interface stanza is accepted iff every prefix, route,
+// RDNSS, DNSSL and PREF64 entry is acceptable on its own, no two prefixes
+// overlap, no two non-wildcard routes overlap, the MTU is within [0, 65536] and
+// the captive portal (if any) is acceptable (C02, both directions).
+//@ macro noOvR(x, y) = x == autoRoute || y == autoRoute || !pfxOverlaps(x, y)
+//@ macro pref64Base(p) = ite(p.Prefix == nil || star(p.Prefix) == "", "64:ff9b::/96", star(p.Prefix))
+//@ macro pref64Accept(p) = canon6(pref64Base(p)) && pref64Len(pfxBits(ppVal(pref64Base(p))))
+//@ macro prefixesAccept(ps) = forall(kp, 0, len(ps), prefixAccept(ps[kp])) && forall(ap, 0, len(ps), forall(bp, 0, len(ps), ap != bp ==> !pfxOverlaps(prefixOf(ps[ap].Prefix), prefixOf(ps[bp].Prefix))))
+//@ macro routesAccept(rs) = forall(kq, 0, len(rs), routeAccept(rs[kq])) && forall(aq, 0, len(rs), forall(bq, 0, len(rs), aq != bq ==> noOvR(routeOf(rs[aq].Prefix), routeOf(rs[bq].Prefix))))
+//@ macro pluginsAccept(ifi, max) = prefixesAccept(ifi.Prefixes) && routesAccept(ifi.Routes) && forall(kd, 0, len(ifi.RDNSS), rdnssAccept(ifi.RDNSS[kd], max)) && forall(ke, 0, len(ifi.DNSSL), dnsslAccept(ifi.DNSSL[ke], max)) && 0 <= ifi.MTU && ifi.MTU <= 65536 && (ifi.CaptivePortal == "" || captiveOK(ifi.CaptivePortal)) && forall(kg, 0, len(ifi.PREF64), pref64Accept(ifi.PREF64[kg]))
 //@ func parsePlugins
 //@   requires G1: sentinelsOK() && epochOK(epoch) && secs(4) <= maxInterval && maxInterval <= secs(1800)
 //@   assigns new heap(plugin.Prefix), new heap(plugin.Route), new heap(plugin.RDNSS), new heap(plugin.DNSSL), new heap(plugin.MTU), new heap(plugin.LLA), new heap(plugin.CaptivePortal), new heap(plugin.PREF64), new heap(ndp.PREF64), new heap(ndp.CaptivePortal), new mem(*plugin.Prefix), new mem(*plugin.Route), new mem(plugin.Plugin), new mem(netip.Addr), new key(MD_Addr_S_empty), new key(MV_Addr_S_empty), new key(MD_Int_S_empty), new key(MV_Int_S_empty)
 //@   loop 1 invariant A1 [C01,C03]: 0 <= rangeindex + 1 && rangeindex + 1 <= len(ifi.Prefixes) && forall(k, 0, len(prefixes), prefixes[k] != nil && prefixes[k] < brk && prefixCfgOK(prefixes[k]))
 //@   loop 1 invariant F1 [C01]: forall(kf, 0, len(prefixes), fresh(prefixes[kf]))
+//@   loop 1 invariant B1 [C02]: len(prefixes) == rangeindex1 + 1 && forall(kp, 0, len(prefixes), prefixAccept(ifi.Prefixes[kp]) && prefixes[kp].Prefix == prefixOf(ifi.Prefixes[kp].Prefix)) && forall(ap, 0, len(prefixes), forall(bp, ap + 1, len(prefixes), prefixes[ap] != prefixes[bp]))
 //@   loop 2 invariant A2 [C01,C03]: 0 <= rangeindex2 + 1 && rangeindex2 + 1 <= len(prefixes) && forall(k, 0, len(prefixes), prefixes[k] != nil && prefixes[k] < brk && prefixCfgOK(prefixes[k]))
 //@   loop 2 invariant F2 [C01]: forall(kf, 0, len(prefixes), fresh(prefixes[kf]))
+//@   loop 2 invariant B2 [C02]: len(prefixes) == len(ifi.Prefixes) && forall(kp, 0, len(prefixes), prefixAccept(ifi.Prefixes[kp]) && prefixes[kp].Prefix == prefixOf(ifi.Prefixes[kp].Prefix)) && forall(ap, 0, len(prefixes), forall(bp, ap + 1, len(prefixes), prefixes[ap] != prefixes[bp])) && forall(ap, 0, rangeindex2 + 1, forall(bp, 0, len(prefixes), ap != bp ==> !pfxOverlaps(prefixes[ap].Prefix, prefixes[bp].Prefix)))
 //@   loop 3 invariant A3 [C01,C03]: 0 <= rangeindex3 + 1 && rangeindex3 + 1 <= len(prefixes) && 0 <= rangeindex2 + 1 && rangeindex2 + 1 < len(prefixes) && forall(k, 0, len(prefixes), prefixes[k] != nil && prefixes[k] < brk && prefixCfgOK(prefixes[k]))
 //@   loop 3 invariant F3 [C01]: forall(kf, 0, len(prefixes), fresh(prefixes[kf]))
+//@   loop 3 invariant B3 [C02]: len(prefixes) == len(ifi.Prefixes) && forall(kp, 0, len(prefixes), prefixAccept(ifi.Prefixes[kp]) && prefixes[kp].Prefix == prefixOf(ifi.Prefixes[kp].Prefix)) && forall(ap, 0, len(prefixes), forall(bp, ap + 1, len(prefixes), prefixes[ap] != prefixes[bp])) && forall(ap, 0, rangeindex2 + 1, forall(bp, 0, len(prefixes), ap != bp ==> !pfxOverlaps(prefixes[ap].Prefix, prefixes[bp].Prefix))) && forall(bp, 0, rangeindex3 + 1, rangeindex2 + 1 != bp ==> !pfxOverlaps(prefixes[rangeindex2 + 1].Prefix, prefixes[bp].Prefix))
 //@   loop 4 invariant A4 [C01,C03]: 0 <= rangeindex4 + 1 && rangeindex4 + 1 <= len(prefixes) && forall(k, 0, len(prefixes), prefixes[k] != nil && prefixes[k] < brk && prefixCfgOK(prefixes[k])) && stage(plugins, 1)
 //@   loop 4 invariant F4 [C01]: forall(kf, 0, len(prefixes), fresh(prefixes[kf])) && freshPlugins(plugins)
 //@   loop 5 invariant A5 [C01,C03]: 0 <= rangeindex5 + 1 && rangeindex5 + 1 <= len(ifi.Routes) && stage(plugins, 1) && forall(k, 0, len(routes), routes[k] != nil && routes[k] < brk && routeCfgOK(routes[k]))
 //@   loop 5 invariant F5 [C01]: forall(kr, 0, len(routes), fresh(routes[kr])) && freshPlugins(plugins)
+//@   loop 5 invariant B5 [C02]: len(routes) == rangeindex5 + 1 && forall(kq, 0, len(routes), routeAccept(ifi.Routes[kq]) && routes[kq].Prefix == routeOf(ifi.Routes[kq].Prefix)) && forall(aq, 0, len(routes), forall(bq, aq + 1, len(routes), routes[aq] != routes[bq]))
 //@   loop 6 invariant A6 [C01,C03]: 0 <= rangeindex6 + 1 && rangeindex6 + 1 <= len(routes) && stage(plugins, 1) && forall(k, 0, len(routes), routes[k] != nil && routes[k] < brk && routeCfgOK(routes[k]))
 //@   loop 6 invariant F6 [C01]: forall(kr, 0, len(routes), fresh(routes[kr])) && freshPlugins(plugins)
+//@   loop 6 invariant B6 [C02]: len(routes) == len(ifi.Routes) && forall(kq, 0, len(routes), routeAccept(ifi.Routes[kq]) && routes[kq].Prefix == routeOf(ifi.Routes[kq].Prefix)) && forall(aq, 0, len(routes), forall(bq, aq + 1, len(routes), routes[aq] != routes[bq])) && forall(aq, 0, rangeindex6 + 1, forall(bq, 0, len(routes), aq != bq ==> noOvR(routes[aq].Prefix, routes[bq].Prefix)))
 //@   loop 7 invariant A7 [C01,C03]: 0 <= rangeindex7 + 1 && rangeindex7 + 1 <= len(routes) && 0 <= rangeindex6 + 1 && rangeindex6 + 1 < len(routes) && stage(plugins, 1) && forall(k, 0, len(routes), routes[k] != nil && routes[k] < brk && routeCfgOK(routes[k]))
 //@   loop 7 invariant F7 [C01]: forall(kr, 0, len(routes), fresh(routes[kr])) && freshPlugins(plugins)
+//@   loop 7 invariant B7 [C02]: len(routes) == len(ifi.Routes) && forall(kq, 0, len(routes), routeAccept(ifi.Routes[kq]) && routes[kq].Prefix == routeOf(ifi.Routes[kq].Prefix)) && forall(aq, 0, len(routes), forall(bq, aq + 1, len(routes), routes[aq] != routes[bq])) && forall(aq, 0, rangeindex6 + 1, forall(bq, 0, len(routes), aq != bq ==> noOvR(routes[aq].Prefix, routes[bq].Prefix))) && forall(bq, 0, rangeindex7 + 1, rangeindex6 + 1 != bq ==> noOvR(routes[rangeindex6 + 1].Prefix, routes[bq].Prefix))
 //@   loop 8 invariant A8 [C01,C03]: 0 <= rangeindex8 + 1 && rangeindex8 + 1 <= len(routes) && stage(plugins, 2) && forall(k, 0, len(routes), routes[k] != nil && routes[k] < brk && routeCfgOK(routes[k]))
 //@   loop 8 invariant F8 [C01]: forall(kr, 0, len(routes), fresh(routes[kr])) && freshPlugins(plugins)
 //@   loop 9 invariant A9 [C01,C03]: 0 <= rangeindex9 + 1 && rangeindex9 + 1 <= len(ifi.RDNSS) && stage(plugins, 3)
 //@   loop 9 invariant F9 [C01]: freshPlugins(plugins)
+//@   loop 9 invariant B9 [C02]: forall(kd, 0, rangeindex9 + 1, rdnssAccept(ifi.RDNSS[kd], maxInterval))
 //@   loop 10 invariant A10 [C01,C03]: 0 <= rangeindex10 + 1 && rangeindex10 + 1 <= len(ifi.DNSSL) && stage(plugins, 4)
 //@   loop 10 invariant F10 [C01]: freshPlugins(plugins)
+//@   loop 10 invariant B10 [C02]: forall(ke, 0, rangeindex10 + 1, dnsslAccept(ifi.DNSSL[ke], maxInterval))
 //@   loop 11 invariant A11 [C01,C03]: 0 <= rangeindex11 + 1 && rangeindex11 + 1 <= len(ifi.PREF64) && stage(plugins, 8) && 0 <= ifi.MTU && ifi.MTU <= 65536
 //@   loop 11 invariant F11 [C01]: freshPlugins(plugins)
+//@   loop 11 invariant B11 [C02]: forall(kg, 0, rangeindex11 + 1, pref64Accept(ifi.PREF64[kg]))
 //@   at call NewPREF64(pp, pm): assert X1 [C02,C03]: pfxValid(pp) && addrIs6(pfxAddr(pp)) && !addrIs4In6(pfxAddr(pp)) && pfxMasked(pp) == pp && pref64Len(pfxBits(pp))
 //@   ensures E1 [C01,C03,C17]: result1 == nil ==> stage(result0, 8)
 //@   ensures E3 [C01]: result1 == nil ==> freshPlugins(result0)
 //@   ensures E2 [C02]: result1 == nil ==> 0 <= ifi.MTU && ifi.MTU <= 65536 && (ifi.CaptivePortal == "" || captiveOK(ifi.CaptivePortal))
+//@   ensures E4 [C02]: (result1 == nil) == pluginsAccept(ifi, maxInterval)
 //@   ensures E3 [C02]: result1 != nil ==> result0 == nil
 //@   opt safety [C02]
 //@   opt frame [C02]
 
+// RDNSS stanza accepted iff: lifetime (default 3*max) within [0, infinite], every
+// server an IPv6 address (not IPv4-mapped), at most one ::, no server twice.
+//@ macro rdnssAccept(d, max) = durSpecOK(d.Lifetime) && 0 <= durSpecVal(d.Lifetime, 3 * max) && durSpecVal(d.Lifetime, 3 * max) <= ndpInfinity && forall(ja, 0, len(d.Servers), srvOK(d.Servers[ja])) && forall(aa, 0, len(d.Servers), forall(ba, aa + 1, len(d.Servers), !(addrIsUnspecified(paVal(d.Servers[aa])) && addrIsUnspecified(paVal(d.Servers[ba]))))) && forall(ab, 0, len(d.Servers), forall(bb, ab + 1, len(d.Servers), !addrIsUnspecified(paVal(d.Servers[ab])) && !addrIsUnspecified(paVal(d.Servers[bb])) ==> paVal(d.Servers[ab]) != paVal(d.Servers[bb])))
 //@ func parseRDNSS
 //@   requires P1: secs(4) <= maxInterval && maxInterval <= secs(1800)
 //@   assigns new heap(plugin.RDNSS), new mem(netip.Addr), new key(MD_Addr_S_empty), new key(MV_Addr_S_empty)
@@ -197,6 +220,7 @@ package config
 //@   loop 1 invariant L4 [C02]: forall(a, 0, rangeindex + 1, forall(b, a + 1, rangeindex + 1, !addrIsUnspecified(paVal(d.Servers[a])) && !addrIsUnspecified(paVal(d.Servers[b])) ==> paVal(d.Servers[a]) != paVal(d.Servers[b])))
 //@   loop 2 invariant M1 [C14]: (ips == nil || fresh(ips)) && forall(k, 0, len(ips), setHasAddr(visited(2), ips[k]) && has(servers, ips[k])) && forall(q, "Addr", setHasAddr(visited(2), q) ==> member(ips, q)) && forall(a, 0, len(ips), forall(b, a + 1, len(ips), ips[a] != ips[b])) && rangemap(2) == servers
 //@   ensures E1 [C02]: result1 == nil ==> durSpecOK(d.Lifetime) && 0 <= durSpecVal(d.Lifetime, 3 * maxInterval) && durSpecVal(d.Lifetime, 3 * maxInterval) <= ndpInfinity && forall(j, 0, len(d.Servers), srvOK(d.Servers[j]))
+//@   ensures E0 [C02]: (result1 == nil) == rdnssAccept(d, maxInterval)
 //@   ensures E2 [C02,C14]: result1 == nil ==> result0 != nil && fresh(result0) && result0.Lifetime == durSpecVal(d.Lifetime, 3 * maxInterval) && result0.Auto == (len(d.Servers) == 0 || exists(j, 0, len(d.Servers), addrIsUnspecified(paVal(d.Servers[j]))))
 //@   ensures E3 [C03]: result1 == nil ==> lifetimeOK(result0.Lifetime)
 //@   ensures E4 [C14]: result1 == nil ==> forall(a, 0, len(result0.Servers), forall(b, a + 1, len(result0.Servers), addrCompare(result0.Servers[a], result0.Servers[b]) < 0))
